@@ -95,7 +95,8 @@ def gen_mod(rng, size=1.0):
     # functions (names first, bodies later)
     fnames = rng.sample(FNAMES, rng.randint(1, 3))
     for n in fnames:
-        f = {"name": n if rng.random() < 0.85 else None, "ret": rng.choice(["void", "i32"]), "params": [], "ag": [], "blocks": None, "md": None, "comdat": None}
+        f = {"name": n if rng.random() < 0.85 else None, "ret": rng.choice(["void", "i32"]), "params": [], "ag": [], "blocks": None, "md": None, "comdat": None,
+             "as": rng.choice([0, 0, 0, 1, 3])}
         for _ in range(rng.randint(0, 2)):
             f["params"].append(("i32", None))
         if m.attrgroups and rng.random() < 0.5:
@@ -115,8 +116,8 @@ def gen_mod(rng, size=1.0):
         elif k < 0.5 and named_g:
             t = rng.choice(named_g)
             g["ty"], g["init"], g["refs"] = "i32**" if False else "i8*", "bitcast (%s* @%s to i8*)" % (gtype(m, t), t), [t]
-        elif k < 0.65 and named_f:
-            t = rng.choice(named_f)
+        elif k < 0.65 and [x for x in named_f if fas(m, x) == 0]:
+            t = rng.choice([x for x in named_f if fas(m, x) == 0])
             g["ty"], g["init"], g["refs"] = "i8*", "bitcast (%s* @%s to i8*)" % (ftype(m, t), t), [t]
         elif k < 0.8 and m.types and any(v is not None for v in m.types.values()):
             t = rng.choice([n for n, v in m.types.items() if v is not None])
@@ -144,9 +145,8 @@ def gen_mod(rng, size=1.0):
             f["md"] = rng.choice(mdids)
     for f in m.funcs:
         if f["name"] and f["blocks"]:
-            for b in f["blocks"]:
-                if b["name"]:
-                    m.blockaddrs.append((f["name"], b["name"]))
+            for bid in block_ids(f):
+                m.blockaddrs.append((f["name"], bid))      # named and UNNAMED (%N) blocks alike
     if m.blockaddrs:
         taken = {g["name"] for g in m.globals}
         for k in range(rng.randint(0, 2)):
@@ -154,13 +154,14 @@ def gen_mod(rng, size=1.0):
             nm = "ba%d" % k
             if nm not in taken:
                 m.globals.insert(rng.randint(0, len([g for g in m.globals if g["kind"] == "G"])),
-                                 {"kind": "G", "name": nm, "ty": "i8*", "init": "blockaddress(@%s, %%%s)" % (fn, bn), "refs": [fn], "comdat": None, "md": None, "linkage": ""})
+                                 {"kind": "G", "name": nm, "ty": "i8*", "init": "blockaddress(@%s, %%%s)" % (fn, bn), "refs": [fn], "comdat": None, "md": None, "linkage": "",
+                                  "brefs": [(fn, bn)]})
         for i in list(m.mds):
             if rng.random() < 0.25:
                 fn, bn = rng.choice(m.blockaddrs)
                 d, fields, refs = m.mds[i]
                 m.mds[i] = (d, fields + ["i8* blockaddress(@%s, %%%s)" % (fn, bn)], refs)
-                m.mds[i] = m.mds[i] + ([fn],)
+                m.mds[i] = m.mds[i] + ([fn], [(fn, bn)])
         if rng.random() < 0.3:
             fn, bn = rng.choice(m.blockaddrs)
             m.uselist.append((fn, bn))
@@ -198,6 +199,23 @@ def ftype(m, name):
     return "void ()"
 
 
+def fas(m, name):
+    for f in m.funcs:
+        if f["name"] == name:
+            return f.get("as", 0)
+    return 0
+
+
+def fptr(m, name):
+    a = fas(m, name)
+    return ftype(m, name) + (" addrspace(%d)*" % a if a else "*")
+
+
+def callas(m, name):
+    a = fas(m, name)
+    return "addrspace(%d) " % a if a else ""
+
+
 def gen_body(rng, m, f, named_g, named_f, mdids):
     nb = rng.randint(1, 4)
     bnames = rng.sample(BNAMES, nb)
@@ -211,7 +229,7 @@ def gen_body(rng, m, f, named_g, named_f, mdids):
     for bi in range(nb):
         insts = []
         for _ in range(rng.randint(0, 4)):
-            k = rng.choice(["add", "add", "icmp", "load", "store", "call", "callv", "gep", "phi"])
+            k = rng.choice(["add", "add", "icmp", "load", "store", "call", "callv", "gep", "phi", "icmpf"])
             nm = rng.choice(LNAMES)
             if nm in used_names or rng.random() < 0.35:
                 nm = None
@@ -222,6 +240,21 @@ def gen_body(rng, m, f, named_g, named_f, mdids):
     f["blocks"] = blocks
     f["_named_g"], f["_named_f"] = named_g, named_f
     f["_seed"] = rng.getrandbits(32)
+
+
+def block_ids(f):
+    """identifiers of the blocks of f under LLVM numbering (same walk as finalize_body)"""
+    n = sum(1 for _, nm in f["params"] if nm is None)
+    out = []
+    for b in f["blocks"]:
+        if b["name"] is None:
+            out.append("%d" % n); n += 1
+        else:
+            out.append(b["name"])
+        for ins in b["insts"]:
+            if ins["op"] not in ("store", "callv") and ins["name"] is None:
+                n += 1
+    return out
 
 
 def finalize_body(m, f):
@@ -312,13 +345,13 @@ def finalize_body(m, f):
                 if i32f:
                     c = rng.choice(i32f); grefs.append(c)
                     nargs = ftype(m, c).count("i32") - 1
-                    s = "%s = call i32 @%s(%s)" % (ident, c, ", ".join("i32 " + opnd() for _ in range(nargs)))
+                    s = "%s = call %si32 @%s(%s)" % (ident, callas(m, c), c, ", ".join("i32 " + opnd() for _ in range(nargs)))
                 else:
                     s = "%s = add i32 %s, 0" % (ident, opnd())
             elif op == "callv":
                 if voidf:
                     c = rng.choice(voidf); grefs.append(c)
-                    s = "call void @%s()" % c
+                    s = "call %svoid @%s()" % (callas(m, c), c)
                 else:
                     s = "store i32 0, i32* null"
             elif op == "gep":
@@ -327,6 +360,13 @@ def finalize_body(m, f):
                     s = "%s = getelementptr i32, i32* @%s, i64 %s" % (ident, g, rng.choice(["0", "1"]))
                 else:
                     s = "%s = getelementptr i32, i32* null, i64 1" % ident
+            elif op == "icmpf":
+                # the TYPE of a function (pointer, in the function's address space) is evaluated while the referring body is translated
+                if f["_named_f"]:
+                    c = rng.choice(f["_named_f"]); grefs.append(c)
+                    s = "%s = icmp eq %s @%s, null" % (ident, fptr(m, c), c)
+                else:
+                    s = "%s = icmp eq i8* null, null" % ident
             elif op == "phi":
                 # incoming from every block would be needed for validity in LLVM; llir does not check dominance.
                 pred = rng.choice(bids); lrefs.append(pred)
@@ -394,7 +434,7 @@ def render(m, rng=None, shuffle=False):
         if g["md"] is not None:
             s += ", !dbg !%d" % g["md"]; refs.append("M=%d" % g["md"])
         glob.append(s)
-        sk.append("G|%s|%s" % (ident[1:] if g["name"] else "#", " ".join(refs)))
+        sk.append("G|%s|%s|||%s" % (ident[1:] if g["name"] else "#", " ".join(refs), " ".join("%s:%s" % b for b in g.get("brefs", []))))
     for g in [x for x in m.globals if x["kind"] == "A"]:
         ident = gident(g)
         alias.append("%s = alias %s, %s" % (ident, g["ty"], g["init"]))
@@ -406,7 +446,7 @@ def render(m, rng=None, shuffle=False):
         refs = ["A=%d" % a for a in f["ag"]]
         if f["blocks"] is None:
             ps = ", ".join("%s %%%d" % (t, i) for i, (t, _) in enumerate(f["params"]))
-            funcs.append("declare %s %s(%s)%s" % (f["ret"], ident, ps, ags))
+            funcs.append("declare %s %s(%s)%s%s" % (f["ret"], ident, ps, " addrspace(%d)" % f["as"] if f.get("as") else "", ags))
             sk.append("F|%s|%s||" % (ident[1:] if f["name"] else "#", " ".join(refs)))
         else:
             lines, ldefs, lrefs, grefs, trefs, mrefs = finalize_body(m, f)
@@ -420,7 +460,7 @@ def render(m, rng=None, shuffle=False):
             md = ""
             if f["md"] is not None:
                 md = " !dbg !%d" % f["md"]; mrefs = mrefs + [f["md"]]
-            funcs.append("define %s %s(%s)%s%s {\n%s\n}" % (f["ret"], ident, ", ".join(ps), ags, md, "\n".join(lines)))
+            funcs.append("define %s %s(%s)%s%s%s {\n%s\n}" % (f["ret"], ident, ", ".join(ps), " addrspace(%d)" % f["as"] if f.get("as") else "", ags, md, "\n".join(lines)))
             refs += ["G=" + g for g in grefs] + ["M=%d" % x for x in mrefs]
             sk.append("F|%s|%s|%s|%s" % (ident[1:] if f["name"] else "#", " ".join(refs), " ".join(ldefs), " ".join(lrefs)))
     ags = ["attributes #%d = { %s }" % (i, m.attrgroups[i]) for i in sorted(m.attrgroups)]
@@ -438,8 +478,11 @@ def render(m, rng=None, shuffle=False):
         d, fields, refs = m.mds[i][0], m.mds[i][1], m.mds[i][2]
         frefs = m.mds[i][3] if len(m.mds[i]) > 3 else []
         mds.append("!%d = %s!{%s}" % (i, "distinct " if d else "", ", ".join(fields)))
-        sk.append("M|%d|%s" % (i, " ".join(["M=%d" % r for r in refs] + ["G=" + x for x in frefs])))
+        mbrefs = m.mds[i][4] if len(m.mds[i]) > 4 else []
+        sk.append("M|%d|%s|||%s" % (i, " ".join(["M=%d" % r for r in refs] + ["G=" + x for x in frefs]), " ".join("%s:%s" % b for b in mbrefs)))
     uls = ["uselistorder i8* blockaddress(@%s, %%%s), { 1, 0 }" % (fn, bn) for fn, bn in m.uselist]
+    for fn, bn in m.uselist:
+        sk.append("U|#|G=%s|||%s:%s" % (fn, fn, bn))
     if not shuffle:
         parts = []
         if head: parts.append("\n".join(head))
@@ -529,6 +572,32 @@ def faults(rng, text, sk):
         sk2 = _sk_replace_ref(sk, "M=" + m.group(1), "M=999")
         if sk2:
             out.append(("undefined-metadata", "error", "\n".join(lines[:i] + [nl] + lines[i + 1:]), sk2))
+    # undefined block label inside a blockaddress constant (global initialiser, metadata field or module-level uselistorder)
+    bu = [(i, m) for i, l in enumerate(lines) if not l.startswith("\t") for m in re.finditer(r"blockaddress\(@([\w.]+), %([\w.]+)\)", l)]
+    if bu:
+        i, m = rng.choice(bu)
+        nl = lines[i][:m.start(2)] + "undef.blk" + lines[i][m.end(2):]
+        old = "%s:%s" % (m.group(1), m.group(2))
+        ents = sk.split(";")
+        # mirrored on the skeleton: the entity of THIS line (global by name, metadata by id, uselistorder by position)
+        sk2 = None
+        if lines[i].startswith("@"):
+            key = re.match(r"@(\S+) =", lines[i]).group(1); key = "#" if key.isdigit() else key; tag = "G"
+        elif lines[i].startswith("!"):
+            key = re.match(r"!(\d+) =", lines[i]).group(1); tag = "M"
+        else:
+            key = "#"; tag = "U"
+        nth = len([1 for l in lines[:i] if l.startswith("uselistorder ")]) if tag == "U" else 0
+        seen = 0
+        for k, e in enumerate(ents):
+            f = e.split("|")
+            if f[0] == tag and f[1] == key and len(f) >= 6 and old in f[5].split():
+                if tag == "U" and seen < nth:
+                    seen += 1; continue
+                toks = f[5].split(); toks[toks.index(old)] = "%s:undef.blk" % m.group(1); f[5] = " ".join(toks)
+                ents[k] = "|".join(f); sk2 = ";".join(ents); break
+        if sk2 and key != "#" or sk2 and tag == "U":
+            out.append(("undefined-block", "error", "\n".join(lines[:i] + [nl] + lines[i + 1:]), sk2))
     # undefined attribute group: the documented exception (materialised as an empty group)
     au = [(i, m) for i, l in enumerate(lines) for m in re.finditer(r" #(\d+)", l) if l.startswith(("define", "declare"))]
     if au:
